@@ -1029,6 +1029,12 @@ pub fn random_spec(rng: &mut Rng, include_osaka: bool) -> SpecId {
 /// one generated case with 1..max_txs transactions
 pub fn gen_case(rng: &mut Rng, spec: SpecId, max_txs: usize) -> Case {
     let f = Features::swarm(rng, spec);
+    gen_case_with(rng, spec, max_txs, &f)
+}
+
+/// like gen_case, with the program features chosen by the caller
+pub fn gen_case_with(rng: &mut Rng, spec: SpecId, max_txs: usize, f: &Features) -> Case {
+    let f = f.clone();
     let world = gen_world(rng, &f, spec);
     let block = gen_block(rng, spec);
     let n = rng.range(1, max_txs as u64) as usize;
